@@ -188,7 +188,7 @@ def evaluate(res, ctx, name, ops, recs, err, rc, check_model=True, pid="C03", cl
         mops = []
         spans = []
         for im, what, replay in model_jobs:
-            seg = ["rmdir d", "rmdir d-merge"]
+            seg = ["rmdir d", "rmdir d-merge"] + ["mkdir " + d for d in im.get("dirs", [])]
             for fname, blob in sorted(im["files"].items()):
                 d, f = fname.split("/")
                 hx, zext = blob.rsplit(":", 1)
@@ -205,8 +205,11 @@ def evaluate(res, ctx, name, ops, recs, err, rc, check_model=True, pid="C03", cl
             for lab, g, x in zip(labels, got, exp):
                 if g == "?" or x is None:
                     continue
-                if lab in ("files d", "files d-merge") and ".hint:0" in (x or ""):
-                    continue
+                if lab in ("files d", "files d-merge"):
+                    # a hint file created empty by Open, or left extended by an mmap crash image, is not modelled
+                    import re as _re
+                    norm = lambda t: _re.sub(r"000000000\.hint:\d+,?", "", t or "").rstrip(",")
+                    g, x = norm(g), norm(x)
                 if g != x:
                     res.violation("correspondence broke: recovery of the image at " + what + ": %s code=%s model=%s" % (lab, str(x)[:200], str(g)[:200]),
                                   {"ops": ops, "crash_event": im["k"], "cut": im.get("cut"), "observation": lab, "code": x, "model": g,
@@ -243,7 +246,15 @@ def workload(rng, io=0, kind="mixed", nsteps=14):
     g = engine.Gen(rng, cfg, nkeys=rng.choice([3, 5]), weights=w, max_val=rng.choice([300, 5000, 40000]))
     ops = g.history(nsteps)
     ops = [o for o in ops if o.split()[0] not in ("dump", "stat", "files", "keys", "fold")]
-    return ops, cfg
+    # restarts inside the workload keep the I/O type (every mmap open costs a 1 GiB mapping)
+    fixed = []
+    for o in ops:
+        f = o.split()
+        if f[0] == "open":
+            f[6] = str(io)
+            o = " ".join(f)
+        fixed.append(o)
+    return fixed, cfg
 
 
 def sync_policy_check(res, name, ops, recs):
